@@ -6,10 +6,11 @@ open Otel Otel.Wire Otel.C06
 /-! Line kinds
 `sched <gen> <cap> <batch> <buf> | <op> <op> … => <obs> <obs> …`   one observation per op
    ops: `e<id>` `g+` `g-` `gc` `gd` (exporter returns nil / an error / context.Canceled / context.DeadlineExceeded:
-        the model does not distinguish the kinds of error) `f<fid>` `s<k>`; forced schedules (build tag verif, hooks): `pe<id>`/`re<id>` park/release an
+        the model does not distinguish the kinds of error) `f<fid>` `s<k>` `t` (wait until the per-export timeout of the exporter call in
+        progress has fired; the exporter ignores it and stays in the call); forced schedules (build tag verif, hooks): `pe<id>`/`re<id>` park/release an
         Emit after its stopped check, `pf<fid>`/`rf<fid>` a ForceFlush after its stopped check, `ps<k>`/`rs` Shutdown at
         the entry of bufferExporter.Export (queue already flushed)
-   obs: `L=<b1/b2/…>;X=<0|1>;F=<fid>:<p|o|e>,…;S=<k>:<p|o|e>,…;D=<queue.dropped>;Q=<queue len>;E=<ids enqueued>;M=<changed records seen>`
+   obs: `L=<b1/b2/…>;X=<0|1>;F=<fid>:<p|o|e>,…;S=<k>:<p|o|e>,…;D=<queue.dropped>;Q=<queue len>;E=<ids enqueued>;M=<changed records seen>;O=<exporter calls entered while another was running>`
         batches/ids as dot-separated lists, `-` when empty
 `hist <gen> <cap> <batch> <buf> <dropped> | <ev> <ev> … => -`       free-running history (oracle only)
    evs: `E<id>` `A<id>` (goroutine = id / 1000) `XS:<ids>` `XE` `XM` `FC<fid>` `FR<fid>+|-` `SC<k>` `SR<k>+|-`
@@ -24,6 +25,7 @@ def parseDot (s : String) : Option (List Nat) :=
 
 def parseOp (t : String) : Option Op :=
   if t == "g+" then some (.gate true) else if t == "g-" || t == "gc" || t == "gd" then some (.gate false)
+  else if t == "t" then some .timeout
   else if t == "rs" then some .rsd
   else if t.startsWith "pe" then (dropS t 2).toNat?.map .pemit
   else if t.startsWith "re" then (dropS t 2).toNat?.map .remit
@@ -60,7 +62,7 @@ def obsOf (s : St) : String :=
   let f := statusList (s.ffs.map fun f => (f.fid, phChar f.ph))
   let sd := statusList (s.sds.map fun c => (c.k, cChar c.ph))
   let ended := (s.seen.foldr (fun x acc => insertSorted (x, "") acc) []).map (·.1)
-  s!"L={l};X={if s.eph == .busy then 1 else 0};F={f};S={sd};D={s.dropCtr};Q={s.q.length};E={dotList ended};M=0"
+  s!"L={l};X={if s.eph == .busy then 1 else 0};F={f};S={sd};D={s.dropCtr};Q={s.q.length};E={dotList ended};M=0;O=0"
 
 /-- model run: observation after every op, with the "a racy state was passed" flag -/
 def runSched (s : St) (p : Parked) (r : Bool) (ops : List Op) : List (String × Bool) × St :=
@@ -137,6 +139,7 @@ def schedOracle (cap batch : Nat) (ops : List Op) (obs : List String) : List Str
       let f37 := !fifo && Spec.fifoOK (fun _ => 0) (st.order.filter early) (batches.flatten.filter early)
       let bad := if fifo || f37 then bad else "L4" :: bad
       let bad := if (field o "M") == some "0" then bad else "L7" :: bad
+      let bad := if (field o "O") == some "0" then bad else "L3" :: bad
       -- L6: the log grew after a Shutdown had returned nil (seen in an earlier observation)
       let grew := lStr != st.prevL
       let bad := if grew && st.quietClean then "L6" :: bad else bad
